@@ -7,6 +7,8 @@ package ast
 import (
 	"fmt"
 	"strings"
+
+	"github.com/ajitpratap0/GoSQLX/pkg/models"
 )
 
 // Formatter is the interface for AST nodes that support configurable SQL formatting.
@@ -142,11 +144,18 @@ func (a AST) Format(opts FormatOptions) string {
 
 	// Emit preserved comments around the formatted SQL
 	if len(a.Comments) > 0 {
-		var leading, trailing []string
+		var leading, trailing, trailingLine []string
 		for _, c := range a.Comments {
 			if c.Inline {
-				// Inline comments (on same line as code) → trailing
-				trailing = append(trailing, c.Text)
+				// Inline comments (on same line as code) → trailing. A line comment
+				// runs to the end of the line, so whatever is written after it would
+				// become part of it (and the tail of a multi-line block comment would
+				// be left dangling): block comments go first, line comments last.
+				if c.Style == models.LineComment {
+					trailingLine = append(trailingLine, c.Text)
+				} else {
+					trailing = append(trailing, c.Text)
+				}
 			} else {
 				// Comments on their own line → leading
 				leading = append(leading, c.Text)
@@ -158,7 +167,7 @@ func (a AST) Format(opts FormatOptions) string {
 			sb.WriteString("\n")
 		}
 		sb.WriteString(result)
-		for _, tc := range trailing {
+		for _, tc := range append(trailing, trailingLine...) {
 			sb.WriteString(" ")
 			sb.WriteString(tc)
 		}
